@@ -81,6 +81,20 @@ CHECKS = {
             "validation, step counts and apply() order against the arithmetic progression. Trace lengths up to 2^32, sequences of 2..8 values (16/64 thorough).",
             KANI_NOTE + "; assertion values are irrelevant to the clauses and fixed; prepare_assertions (private, B-tree based) is not executed",
             "DESIGN.md section 4 C21"),
+    "C23": ("bounded model checking (Kani/CBMC) of the degree formulas (stand-in field, integer arithmetic only) and ground evaluation of the real transition divisor over F17",
+            "TransitionConstraintDegree::get_evaluation_degree and min_blowup_factor equal their definitions for base degrees 1..=16, 0..=2 cycles and all trace lengths 8..2^32; "
+            "ConstraintDivisor::from_transition(8, e), e = 1..=4, has degree 8-e, vanishes on exactly the non-exempt trace-domain points and equals (x^8-1)/prod(x-g^t) off the domain.",
+            KANI_NOTE + "; the composition-column sufficiency clause (AirContext::num_constraint_composition_columns) only as thorough/edge instances that did not finish within the cap in this round - it is NOT claimed; periodic column polynomials outside",
+            "DESIGN.md section 4 C23"),
+    "C25": ("bounded model checking (Kani/CBMC) of conjectured security and of AcceptableOptions::validate over symbolic option values",
+            "For f64/f62/f128 contexts and hashers with 32- and 128-bit collision resistance: no overflow, bits <= collision resistance, bits < field bits * extension degree, non-decreasing in queries / grinding / "
+            "extension degree for all constructor-accepted option pairs; MinConjecturedSecurity(m) accepts <=> bits >= m.",
+            KANI_NOTE + "; proven security (f64 log2/powf/sqrt) is outside: CBMC has no faithful model of these; OptionSet membership only as a thorough/edge instance",
+            "DESIGN.md section 4 C25"),
+    "C29": ("bounded model checking (Kani/CBMC) of Trace::validate against an independent checker over a model AIR (F17, 8x2 trace, all 16 cells symbolic)",
+            "assume(checker accepts) => validate does not panic; assume(checker rejects) => validate panics (marker assertion unreachable); TraceTable built by init and by new+fill contain the same rows.",
+            KANI_NOTE + "; model AIR with one periodic column (cycle 4), a degree-1 and a degree-2 constraint, 1 exemption (2 exemptions + periodic assertion in the thorough tier); auxiliary segments and real fields outside",
+            "DESIGN.md section 4 C29"),
     "C24": ("bounded model checking (Kani/CBMC): pairwise injectivity of Context::to_elements over symbolic constructor arguments",
             "Two symbolic, constructor-valid contexts are built through the public constructors and the real to_elements code is run on both; equal seed vectors must imply equal listed parameters. "
             "Metadata lengths are enumerated per instance (0,1,2,15,16,17,...), bytes symbolic. One known finding (trailing zero metadata bytes) is excluded by class and asserted by a witness harness.",
